@@ -393,21 +393,22 @@ func Input(l *InputSharedVars, g *GlobalVarsMain, hPath *HFilePath, driConfig *C
 					}
 				}
 
-				checkDate := func() func(date string) {
+				checkDate := func() func(date string) error {
 					currentDate := 0
 					currentDateStr := ""
-					return func(date string) {
+					return func(date string) error {
 						if currentDate == 0 {
 							_, currentDate = g.Datum(date)
 							currentDateStr = date
 						} else {
 							if _, dateValue := g.Datum(date); dateValue <= currentDate {
-								panic(fmt.Sprintf("Date %s is before %s", currentDateStr, date))
+								return fmt.Errorf("rotation file %s: date %s is not after %s", ROTA, date, currentDateStr)
 							} else {
 								currentDate = dateValue
 								currentDateStr = date
 							}
 						}
+						return nil
 					}
 				}()
 				SLFIND := 0
@@ -421,11 +422,15 @@ func Input(l *InputSharedVars, g *GlobalVarsMain, hPath *HFilePath, driConfig *C
 						}
 						if SLFIND > 1 {
 							SAT = ROtoken[hSow]
-							checkDate(SAT)
+							if err := checkDate(SAT); err != nil {
+								return err
+							}
 						}
 
 						ERNT = ROtoken[hHarvest]
-						checkDate(ERNT)
+						if err := checkDate(ERNT); err != nil {
+							return err
+						}
 						if len(ROtoken) > hOrgDung {
 							g.ODU[SLFINDindex] = ValAsFloat(ROtoken[hOrgDung], ROTA, ROtoken[hOrgDung])
 						} else {
